@@ -96,6 +96,26 @@ def generate(api):
     if dmin_milli.denominator != 1:
         raise U("%s: default min_seconds_between_redraws is not a whole number of ms" % rel)
 
+    # D18b repair: finish() compares the maximum of the frame on the line (`_displayed_max`) too
+    fin = api.P.find_function(tree, "ProgressBar", "finish", rel)
+    ovw = api.P.find_function(tree, "ProgressBar", "_overwrite", rel)
+    guard = [st for st in fin.body if isinstance(st, ast.If) and "_should_overwrite" in ast.dump(st.test)]
+    if len(guard) != 1 or "_displayed_step" not in ast.dump(guard[0].test):
+        raise U("%s: finish() no longer has the modelled skip-the-redraw guard" % rel)
+    compares_max = "_displayed_max" in ast.dump(guard[0].test)
+
+    def assigns(fn, attr, value_attr):
+        for st in ast.walk(fn):
+            if (isinstance(st, ast.Assign) and len(st.targets) == 1 and isinstance(st.targets[0], ast.Attribute)
+                    and st.targets[0].attr == attr and isinstance(st.value, ast.Attribute) and st.value.attr == value_attr):
+                return True
+        return False
+    if not assigns(ovw, "_displayed_step", "_step"):
+        raise U("%s: _overwrite() no longer records the displayed step" % rel)
+    records_max = assigns(ovw, "_displayed_max", "_max")
+    if compares_max != records_max:
+        raise U("%s: finish() compares _displayed_max (%s) but _overwrite() records it (%s)" % (rel, compares_max, records_max))
+
     ttree, trel = api.parse("utils/time.py")
     tf = None
     for st in ttree.body:
@@ -139,6 +159,9 @@ def generate(api):
     out.append("/-- `self._min_seconds_between_redraws = …` / `self._max_seconds_between_redraws = …` of `__init__`, in ticks -/")
     out.append("def initMinIntervalTicks : Nat := %d" % int(min_ticks))
     out.append("def initMaxIntervalTicks : Nat := %d" % int(max_ticks))
+    out.append("/-- `finish()` skips the redraw only when the frame on the line also shows the present maximum\n"
+               "(`and self._displayed_max == self._max`, repair of D18b) -/")
+    out.append("def finishComparesDisplayedMax : Bool := %s" % ("true" if compares_max else "false"))
     out.append("\n/-- `_TIME_FORMATS` of utils/time.py: (limit in seconds, text, divisor) -/")
     out.append("def timeFormats : List (Nat × List Char × Option Nat) := [")
     out.append(",\n".join("  (%d, %s, %s)" % (l, _chars(t), "none" if d is None else "some %d" % d) for l, t, d in rows))
